@@ -484,6 +484,9 @@ def c09_registry(stream, res, impl):
                 wl = sorted(x for x in kv.get("wl", "").split(",") if x)
                 hosts = sorted(x for x in kv.get("hosts", "").split(",") if x)
                 acked = sorted(h for h, c in reg.items() if c not in refusing)
+                if out.startswith("err HostsFailed") and (not reg or acked):
+                    return ("hosts with a live connection: %s, refusing: %s; yet the client was told that calling the hosts failed: "
+                            "the pool called a connection that is gone" % (sorted(reg.items()), sorted(refusing)))
                 if wl != sorted(reg.values()):
                     return ("hosts with a live connection: %s; the pool called connections %s and answered the client `%s`"
                             % (sorted(reg.items()), wl, out[:160]))
